@@ -5,7 +5,7 @@ PROP = dict(
     spec_ops=("bs.spec", "bs.cellspec"),
     rule="operation sequences of 20..200 random items over all 28 read/write/skip/grow/append/copy methods on "
          "capacities 0..2000 (boundaries over-weighted), widths 0..64 biased to 0/1/7/8/9/55..58/63/64, big-int widths "
-         "1..257, unary up to 100, plus the same vocabulary on fresh and BOC-parsed cells with reference slots, and CopyRemaining after k NextRef for every reference count 0..4, every k, every bit-cursor alignment, with ResetCounters interleaved; "
+         "1..257, unary up to 100, plus the same vocabulary on fresh and BOC-parsed cells with reference slots, and CopyRemaining after k NextRef for every reference count 0..4, every k, every bit-cursor alignment, with ResetCounters interleaved; sources of WriteBitString/Append that have been partially read; counts near 2^60..2^63 and negative counts for every reader; SetTopUppedArray on every last-byte value; "
          "non-trivial = distinct sequence containing at least one read at a cursor that is not byte aligned and "
          "(an operation that returns an error or a read wider than 56 bits). Fast-path grid: ReadUint/PickUint/ReadInt at "
          "every offset of a 128-byte buffer for widths {0,1,7,8,9,16,55..58,63,64} (thorough: every width 0..64) x 5 (7) "
